@@ -76,6 +76,8 @@ class Exec:
         self.assume_false = set(assume_false)
         self.funcs = {n.name: n for n in module.body if isinstance(n, ast.FunctionDef)}
         self.depth = 0
+        self.ntmp = 0
+        self.len_inv = []             # proved length invariants of the enclosing loops
         self.fn_stack = []
 
     # ---------------------------------------------------------------- expressions
@@ -120,6 +122,17 @@ class Exec:
                     tuple(self.ev(v, p, bound) for v in e.values))
         if isinstance(e, ast.BinOp):
             a, b = self.ev(e.left, p, bound), self.ev(e.right, p, bound)
+            if isinstance(e.op, ast.Add) and _fparts(a) is not None and _fparts(b) is not None:
+                return _fstr(_fparts(a) + _fparts(b))          # "dim_" + str(k) is f"dim_{k}"
+            if isinstance(e.op, ast.Mod) and a[0] == "K" and a[1][:1] in "'\"":
+                t = ast.literal_eval(a[1])
+                args = list(b[1]) if b[0] == "T" else [b]
+                if isinstance(t, str) and t.count("%s") == len(args) == t.count("%"):
+                    pieces = t.split("%s")                      # "dim_%s" % k
+                    parts = [("K", repr(pieces[0]))]
+                    for x, rest in zip(args, pieces[1:]):
+                        parts += [("FMT", x, -1, None), ("K", repr(rest))]
+                    return _fstr(parts)
             if isinstance(e.op, ast.Add) and a[0] == "K" and b[0] == "K" \
                     and a[1][:1] in "'\"" and b[1][:1] in "'\"":
                 return ("K", repr(ast.literal_eval(a[1]) + ast.literal_eval(b[1])))
@@ -148,7 +161,7 @@ class Exec:
                 else:
                     parts.append(("FMT", self.ev(v.value, p, bound), v.conversion,
                                   None if v.format_spec is None else _u(v.format_spec)))
-            return ("FSTR", tuple(parts))
+            return _fstr(parts)
         if isinstance(e, ast.Subscript):
             return self.subscript(e, p, bound)
         if isinstance(e, (ast.ListComp, ast.GeneratorExp, ast.SetComp)):
@@ -169,6 +182,16 @@ class Exec:
         return ("NOT", v)
 
     def compare(self, op, a, b):
+        # emptiness tests of a sized container: len(x) == 0 is `not x`, len(x) > 0 / != 0 / >= 1 is `x`
+        if a[0] == "C" and a[1] == ("S", "len") and len(a[2]) == 1 and not a[3] and b[0] == "K":
+            x = a[2][0]
+            if b[1] == "0" and isinstance(op, ast.Eq):
+                return self.neg(x)
+            if (b[1] == "0" and isinstance(op, (ast.Gt, ast.NotEq))) or \
+                    (b[1] == "1" and isinstance(op, ast.GtE)):
+                return x
+            if b[1] == "1" and isinstance(op, ast.Lt):
+                return self.neg(x)
         if isinstance(op, (ast.Is, ast.Eq)) and b in (("K", "False"), ("K", "True")):
             return a if b == ("K", "True") else self.neg(a)
         if isinstance(op, (ast.IsNot, ast.NotEq)) and b in (("K", "False"), ("K", "True")):
@@ -197,8 +220,23 @@ class Exec:
                 lo = None
             if lo is None and hi is None and st is None:
                 return base                                   # xs[:len(xs)] / xs[:] read as xs
+            if _is_pair(base) and st is None:
+                # a slice of a pair is a tuple of known elements
+                two = (("IDX", base, ("K", "0")), ("IDX", base, ("K", "1")))
+                if lo == ("K", "1") and hi is None:
+                    return ("T", two[1:])
+                if lo is None and hi == ("K", "1"):
+                    return ("T", two[:1])
             return ("SL", base, lo, hi, st)
         idx = self.ev(s, p, bound)
+        # xs[n] when the path has decided len(xs) - 1 == n is the last element, xs[-1]
+        last = ("BIN", "Sub", ("C", ("S", "len"), (base,), ()), ("K", "1"))
+        if idx == last or any(pol and a[0] == "CMP" and a[1] == "Eq" and
+                              ((a[2] == idx and a[3] == last) or (a[3] == idx and a[2] == last))
+                              for a, pol in p.conds):
+            idx = ("K", "-1")
+        if idx == ("UN", "USub", ("K", "1")):
+            idx = ("K", "-1")
         # xs[i] inside `for i in range(len(xs))` is the element of that loop
         if idx[0] == "IX" and idx[2] == base:
             return ("EL", idx[1], base)
@@ -251,6 +289,15 @@ class Exec:
                 return v
         if isinstance(f, ast.Attribute):
             recv = self.ev(f.value, p, bound)
+            if f.attr == "format" and recv[0] == "K" and recv[1][:1] in "'\"" and not kwargs:
+                t = ast.literal_eval(recv[1])
+                if isinstance(t, str) and t.count("{}") == len(args) \
+                        and "{" not in t.replace("{}", "") and "}" not in t.replace("{}", ""):
+                    pieces = t.split("{}")                      # "dim_{}".format(k)
+                    parts = [("K", repr(pieces[0]))]
+                    for x, rest in zip(args, pieces[1:]):
+                        parts += [("FMT", x, -1, None), ("K", repr(rest))]
+                    return _fstr(parts)
             if f.attr in CONSUMERS:
                 args = [_anon_comp(a) for a in args]
             # methods of a string literal are computed
@@ -326,6 +373,26 @@ class Exec:
         v = self.ev(e, probe)
         return v[0] == "C" and v[1] == ("S", fn.name)      # the value-level inliner gave up
 
+    def nested_helper_call(self, s, p):
+        """the first call, nested inside the expressions of statement s and evaluated exactly once,
+        of a same-file helper that does not reduce to a value"""
+        found = []
+
+        def walk(n):
+            if found:
+                return
+            if isinstance(n, (ast.ListComp, ast.GeneratorExp, ast.SetComp, ast.DictComp,
+                              ast.Lambda, ast.IfExp, ast.BoolOp)):
+                return                         # evaluated zero or several times: not hoisted
+            if isinstance(n, ast.Call) and n is not getattr(s, "value", None) \
+                    and self.helper_call(n, p):
+                found.append(n)
+                return
+            for c in ast.iter_child_nodes(n):
+                walk(c)
+        walk(s)
+        return found[0] if found else None
+
     def call_paths(self, e, p):
         fn = self.funcs[e.func.id]
         params = [x.arg for x in fn.args.args]
@@ -393,21 +460,63 @@ class Exec:
             if t.id not in p.assigned:
                 p.assigned.append(t.id)
         elif isinstance(t, (ast.Tuple, ast.List)):
+            stars = [k for k, x in enumerate(t.elts) if isinstance(x, ast.Starred)]
+            if stars:
+                self.assign_starred(t, stars, v, p)
+                return
+            literal = v[0] in ("T", "L") and len(v[1]) == len(t.elts)
+            if not literal and not (_is_pair(v) and len(t.elts) == 2) and not (
+                    v[0] == "M" and v[1] in ("partition", "rpartition") and len(t.elts) == 3):
+                # unpacking a value of unknown length raises unless it has exactly that many
+                # elements: `a, b = v` is not `a = v[0]; b = v[1]`
+                p.effects.append(("UNPACK", v, len(t.elts)))
             for k, x in enumerate(t.elts):
-                if v[0] in ("T", "L") and len(v[1]) == len(t.elts):
+                if literal:
                     self.assign(x, v[1][k], p)
                 else:
                     self.assign(x, ("IDX", v, ("K", str(k))), p)
-        elif isinstance(t, ast.Subscript) and isinstance(t.value, ast.Name) \
-                and t.value.id in p.env and self.pure_value(p.env[t.value.id]) \
-                and p.env[t.value.id][0] not in ("S", "NEWLIST", "LS", "AFTER", "R"):
-            # item assignment on a value built in this path (e.g. the list a split returned)
-            key = self.ev(t.slice, p)
-            p.env[t.value.id] = ("SETITEM", p.env[t.value.id], key, v)
         elif isinstance(t, (ast.Subscript, ast.Attribute)):
+            # an item / attribute store is an EFFECT on the object (wherever the object is bound:
+            # local, parameter of a helper, variable of an enclosing loop) ...
             p.effects.append(("STORE", self.ev_target(t, p), v))
+            # ... and, when the object is a value built by pure code that this scope has a name
+            # for, later reads through that name see the update
+            if isinstance(t, ast.Subscript) and isinstance(t.value, ast.Name) \
+                    and t.value.id in p.env and self.pure_value(p.env[t.value.id]) \
+                    and p.env[t.value.id][0] not in ("S", "NEWLIST", "LS", "AFTER", "R"):
+                key = self.ev(t.slice, p)
+                p.env[t.value.id] = ("SETITEM", p.env[t.value.id], key, v)
         else:
             raise Unsupported("assignment target " + type(t).__name__)
+
+    def assign_starred(self, t, stars, v, p):
+        """`a, *rest, z = v`: the fixed targets are v[0].. / v[-1].., the starred one the LIST of
+        what is between; read as items / a slice of v only when v is known to be a list that is
+        long enough (a literal, or the result of str.split(sep): a list with at least one element) -
+        otherwise the unpacking may raise, or `rest` differs from the slice in type"""
+        if len(stars) != 1:
+            raise Unsupported("two starred assignment targets")
+        k0 = stars[0]
+        after = len(t.elts) - k0 - 1
+        fixed = len(t.elts) - 1
+        if v[0] == "L" and len(v[1]) >= fixed:
+            n = len(v[1])
+            vals = list(v[1][:k0]) + [("L", tuple(v[1][k0:n - after]))] + list(v[1][n - after:])
+            for x, w in zip(t.elts, vals):
+                self.assign(x.value if isinstance(x, ast.Starred) else x, w, p)
+            return
+        if not (v[0] == "M" and v[1] == "split" and len(v[3]) >= 1 and v[3][0][0] == "K"
+                and fixed <= 1):       # split(<literal separator>): never an empty list
+            raise Unsupported("star-unpacking of a value not known to be a long enough list")
+        for k, x in enumerate(t.elts):
+            if k < k0:
+                self.assign(x, ("IDX", v, ("K", str(k))), p)
+            elif k == k0:
+                lo = ("K", str(k0)) if k0 else None
+                hi = ("UN", "USub", ("K", str(after))) if after else None
+                self.assign(x.value, v if lo is None and hi is None else ("SL", v, lo, hi, None), p)
+            else:
+                self.assign(x, ("IDX", v, ("K", str(k - len(t.elts)))), p)
 
     def ev_target(self, t, p):
         if isinstance(t, ast.Subscript):
@@ -484,6 +593,19 @@ class Exec:
                 ast.copy_location(loop, s)
                 ast.fix_missing_locations(loop)
                 return self.block([loop] + rest, p, in_loop)
+            if isinstance(s, (ast.Assign, ast.AugAssign, ast.Expr, ast.Return)) \
+                    and s.value is not None and not self.helper_call(s.value, p):
+                inner = self.nested_helper_call(s, p)
+                if inner is not None:
+                    # f(g(x)) with g a branching helper: `t = g(x); f(t)` (the temporary is dead
+                    # afterwards and does not show in the normal form)
+                    self.ntmp += 1
+                    tmp = "__h%d" % self.ntmp
+                    first = ast.Assign(targets=[ast.Name(id=tmp, ctx=ast.Store())], value=inner)
+                    second = _replace_node(s, inner, ast.Name(id=tmp, ctx=ast.Load()))
+                    ast.copy_location(first, s)
+                    ast.fix_missing_locations(first)
+                    return self.block([first, second] + rest, p, in_loop)
             if isinstance(s, (ast.Assign, ast.Expr, ast.Return)) and self.helper_call(s.value, p):
                 # a helper of the same file with several paths / effects, called at statement
                 # level: its paths are spliced into the caller's
@@ -535,8 +657,10 @@ class Exec:
                 p.exit = ("break",)
                 return [p]
             if isinstance(s, ast.For) and not s.orelse:
-                self.loop(s, p)
-                continue
+                out = []
+                for q in self.loop(s, p):
+                    out += self.block(rest, q, in_loop)
+                return out
             if isinstance(s, ast.With) and len(s.items) == 1:
                 it = s.items[0]
                 v = self.ev(it.context_expr, p)
@@ -545,6 +669,24 @@ class Exec:
                     self.assign(it.optional_vars, ("R", len(p.effects)), p)
                 return self.block(list(s.body) + [ast.Expr(value=ast.Constant(value="end-with"))]
                                   + rest, p, in_loop)
+            if isinstance(s, ast.Try) and not _contains(
+                    s.body + s.orelse + s.finalbody + [x for h in s.handlers for x in h.body],
+                    (ast.Return, ast.Continue, ast.Break, ast.Yield)):
+                # try / except / else / finally without jumps out of it: a structured effect whose
+                # blocks are normal forms themselves (values, not names); what the blocks assign is
+                # unknown afterwards
+                def sub(stmts):
+                    q = Path(p.env)
+                    q.nloop, q.nnew = p.nloop, p.nnew
+                    return self.normal(self.block(list(stmts), q, in_loop))
+                handlers = tuple((None if h.type is None else self.ev(h.type, p), sub(h.body))
+                                 for h in s.handlers)
+                p.effects.append(("TRY", sub(s.body), handlers, sub(s.orelse), sub(s.finalbody)))
+                for nm in sorted(_stored_names([s])):
+                    p.env[nm] = ("AFTERSTMT", len(p.effects), nm)
+                    if nm not in p.assigned:
+                        p.assigned.append(nm)
+                continue
             # outside the vocabulary: pinned by its text, a barrier for substitution
             p.effects.append(("STMT", _u(s)))
             for n in ast.walk(s):
@@ -558,20 +700,23 @@ class Exec:
 
     def loop(self, s, p):
         it = self.ev(s.iter, p)
-        # a loop over a literal tuple / list of constants is unrolled
-        if it[0] in ("T", "L") and all(x[0] == "K" for x in it[1]) and isinstance(s.target, ast.Name) \
-                and not _contains(s.body, (ast.Continue, ast.Break, ast.Return)):
+        # a loop over a tuple / list with known elements is unrolled (each round may branch)
+        if it[0] in ("T", "L") and not any(x[0] == "STAR" for x in it[1]) \
+                and not _contains(s.body, (ast.Continue, ast.Break)):
+            paths = [p]
             for x in it[1]:
-                p.env[s.target.id] = x
-                paths = self.block(list(s.body), p, in_loop=True)
-                if len(paths) != 1:
-                    raise Unsupported("branching inside an unrolled loop")
-                q = paths[0]
-                p.env, p.effects, p.assigned, p.reads = q.env, q.effects, q.assigned, q.reads
-                p.nnew, p.nloop = q.nnew, q.nloop
-                p.exit = None
-            p.env.pop(s.target.id, None)
-            return
+                nxt = []
+                for q in paths:
+                    if q.exit is not None:                   # returned / raised in an earlier round
+                        nxt.append(q)
+                        continue
+                    self.assign_loop_target(s.target, x, q.env)
+                    for r in self.block(list(s.body), q, in_loop=True):
+                        if r.exit == ("next",):
+                            r.exit = None
+                        nxt.append(r)
+                paths = nxt
+            return paths
         p.nloop += 1
         k = p.nloop
         body_env = dict(p.env)
@@ -594,6 +739,25 @@ class Exec:
             rng = ("RANGE", ln(xs))
             body_env[tgt.elts[0].id] = ("IX", k, xs)
             body_env[tgt.elts[1].id] = ("EL", k, xs)
+        elif _zip_args(it) is not None and isinstance(tgt, (ast.Tuple, ast.List)) \
+                and len(tgt.elts) == len(_zip_args(it)[1]):
+            # for a, b in zip(A, B): a, b are the elements of A and B at the same position
+            kind, seqs = _zip_args(it)
+            rng = ("RANGE", (kind, tuple(ln(x) for x in seqs)))
+            for t_, x in zip(tgt.elts, seqs):
+                self.assign_loop_target(t_, (kind, k, x), body_env)
+            # zip(L, D) is the index loop `for i in range(n)` over L[i], D[i] when a PROVED loop
+            # invariant of an enclosing loop gives len(L) == n and the path knows len(D) >= n
+            n = self.known_length(p, seqs[0]) if kind == "ELZ" else None
+            if n is not None and all(self.at_least(p, x, n) for x in seqs[1:]):
+                rng = ("RANGE", n)
+                # (the same symbols as for `for i in range(n)`: when n is the length of one of
+                # the sequences, i indexes that sequence)
+                whose = next((x for x in seqs if n == ln(x)), None)
+                ix = ("IX", k, whose)
+                for t_, x in zip(tgt.elts, seqs):
+                    self.assign_loop_target(t_, ("EL", k, x) if x == whose else ("IDX", x, ix),
+                                            body_env)
         else:
             rng = ("RANGE", ln(it))
             self.assign_loop_target(tgt, ("EL", k, it), body_env)
@@ -620,9 +784,20 @@ class Exec:
         assigned = sorted(_stored_names(s.body) - _target_names(tgt))
         for nm in assigned:
             body_env[nm] = ("LS", k, nm) if nm in p.env or True else None
-        body = Path(body_env)
-        body.nloop, body.nnew = p.nloop, p.nnew
-        paths = self.block(list(s.body), body, in_loop=True)
+        def run_body():
+            body = Path(body_env)
+            body.nloop, body.nnew = p.nloop, p.nnew
+            return self.block(list(s.body), body, in_loop=True)
+        paths = run_body()
+        inv = self.length_invariants(k, paths, p, assigned)
+        if inv:
+            # second pass: the proved facts `flag false => len(list) == counter` are available to
+            # the loops inside the body
+            self.len_inv.append((k, inv))
+            try:
+                paths = run_body()
+            finally:
+                self.len_inv.pop()
         p.nloop = max([p.nloop] + [q.nloop for q in paths])
         # loop-carried / live-out variables: read at the start of an iteration, or read anywhere in
         # the function outside this loop; the other names assigned in the body are temporaries
@@ -637,6 +812,71 @@ class Exec:
             p.env[nm] = ("AFTER", k, nm)
             if nm not in p.assigned:
                 p.assigned.append(nm)
+        return [p]
+
+    def known_length(self, p, xs):
+        """n such that len(xs) == n follows from a proved invariant of an enclosing loop: xs is a list
+        object, the invariant's flag is false on this path, n is the current value of its counter"""
+        for k, inv in self.len_inv:
+            if xs in inv:
+                flag, counter = inv[xs]
+                off = p.env.get(flag) == ("K", "False") or any(
+                    a == ("LS", k, flag) and not pol for a, pol in p.conds)
+                if off and counter in p.env:
+                    return p.env[counter]
+        return None
+
+    def length_invariants(self, k, paths, p, assigned):
+        """{list object: (flag, counter)} such that, by induction over the iterations of loop k,
+        `flag is False  =>  len(object) == counter` holds at the start and at every point of an
+        iteration after the flag has been cleared.  Proof obligations checked on the body paths:
+        the object is empty before the loop and the flag True; a path that grows the object does so
+        by exactly m appends, requires the flag True, clears it and sets the counter to m; every
+        other path leaves the flag and the counter alone and does not change the object's length;
+        the object escapes nowhere."""
+        out = {}
+        objs = {v for v in p.env.values() if isinstance(v, tuple) and v and v[0] == "NEWLIST"}
+        for obj in sorted(objs):
+            if any(_has(e, obj) for e in p.effects):
+                continue                                        # touched before the loop
+            growth, ok = [], True
+            for q in paths:
+                g = []
+                for e in q.effects:
+                    if e[0] == "CALL" and e[1][:3] == ("M", "append", obj) and len(e[1][3]) == 1 \
+                            and not _has(e[1][3], obj):
+                        g.append(("K", "1"))
+                    elif e[0] == "FOREACH" and e[2][0] == "RANGE" and len(e[3]) == 1 \
+                            and not e[3][0][0] and not e[3][0][3] and len(e[3][0][1]) == 1 \
+                            and e[3][0][1][0][0] == "CALL" \
+                            and e[3][0][1][0][1][:3] == ("M", "append", obj) \
+                            and not _has(e[3][0][1][0][1][3], obj) and not _has(e[2], obj):
+                        g.append(e[2][1])
+                    elif _has(_strip_reads(e, obj), obj):
+                        ok = False                              # any other use of the object itself
+                if _has(_strip_reads((tuple(q.conds), q.exit), obj), obj) or len(g) > 1:
+                    ok = False
+                growth.append(g[0] if g else None)
+            if not ok or not any(g is not None for g in growth):
+                continue
+            flags = [nm for nm in assigned if p.env.get(nm) == ("K", "True")]
+            for flag in flags:
+                for counter in assigned:
+                    if counter == flag:
+                        continue
+                    good = True
+                    for q, g in zip(paths, growth):
+                        if q.exit is not None and q.exit[0] == "raise":
+                            continue
+                        if g is None:
+                            good &= q.env.get(flag) == ("LS", k, flag) and \
+                                q.env.get(counter) == ("LS", k, counter)
+                        else:
+                            good &= (("LS", k, flag), True) in q.conds and \
+                                q.env.get(flag) == ("K", "False") and q.env.get(counter) == g
+                    if good:
+                        out[obj] = (flag, counter)
+        return out
 
     @staticmethod
     def at_least(p, xs, n):
@@ -684,6 +924,90 @@ class Exec:
         self.fn_stack = [fn]
         paths = self.block(list(fn.body), Path(), in_loop=False)
         return self.normal(paths)
+
+
+def _has(v, x):
+    if v == x:
+        return True
+    if isinstance(v, (tuple, list)):
+        return any(_has(y, x) for y in v)
+    return False
+
+
+def _strip_reads(v, obj):
+    """v with the harmless uses of list object obj removed: its elements and its length"""
+    if isinstance(v, tuple):
+        if v[:2] == ("IDX", obj) or (len(v) == 3 and v[0] in ("EL", "ELZ", "ELL") and v[2] == obj) \
+                or v == ("C", ("S", "len"), (obj,), ()):
+            return "READ"
+        return tuple(_strip_reads(x, obj) for x in v)
+    if isinstance(v, list):
+        return [_strip_reads(x, obj) for x in v]
+    return v
+
+
+def _zip_args(it):
+    """('ELZ' | 'ELL', sequences) when `it` is zip(...) / itertools.zip_longest(...) without keywords"""
+    if it[0] == "C" and it[1] == ("S", "zip") and not it[3] and len(it[2]) >= 2:
+        return "ELZ", it[2]
+    if it[0] == "M" and it[1] == "zip_longest" and it[2] == ("S", "itertools") and not it[4] \
+            and len(it[3]) >= 2:
+        return "ELL", it[3]
+    if it[0] == "C" and it[1] == ("S", "zip_longest") and not it[3] and len(it[2]) >= 2:
+        return "ELL", it[2]
+    return None
+
+
+def _is_pair(v):
+    """is v known to be a 2-tuple? (an element of DataFrame.iterrows() / dict.items() / enumerate())"""
+    if v[0] in ("EL", "ELZ", "ELL") and isinstance(v[2], tuple):
+        src = v[2]
+        if src[0] == "M" and src[1] in ("iterrows", "items", "iteritems") and not src[3]:
+            return True
+        if src[0] == "C" and src[1] == ("S", "enumerate"):
+            return True
+    return False
+
+
+def _fparts(v):
+    """the pieces of a string-valued term, or None when v is not known to be a string"""
+    if v[0] == "K" and v[1][:1] in "'\"":
+        return [v]
+    if v[0] == "FSTR":
+        return list(v[1])
+    if v[0] == "C" and v[1] == ("S", "str") and len(v[2]) == 1 and not v[3]:
+        return [("FMT", v[2][0], -1, None)]
+    return None
+
+
+def _fstr(parts):
+    """the format term of a string built from literal pieces and formatted values: f-string, `+`
+    with str(..), %-format and str.format all give the same term; `{x!s}` and `{str(x)}` are `{x}`"""
+    out = []
+    for x in parts:
+        if x[0] == "FMT":
+            val, conv, spec = x[1], x[2], x[3]
+            if conv == 115:
+                conv = -1
+            if spec is None and val[0] == "C" and val[1] == ("S", "str") and len(val[2]) == 1 \
+                    and not val[3]:
+                val = val[2][0]
+            inner = _fparts(val) if spec is None and conv == -1 else None
+            if inner is not None and val[0] != "C":
+                out += inner                                   # a string formatted into a string
+                continue
+            x = ("FMT", val, conv, spec)
+        if x[0] == "K" and out and out[-1][0] == "K":
+            out[-1] = ("K", repr(ast.literal_eval(out[-1][1]) + ast.literal_eval(x[1])))
+        elif x[0] == "K" and ast.literal_eval(x[1]) == "":
+            continue
+        else:
+            out.append(x)
+    if not out:
+        return ("K", "''")
+    if len(out) == 1 and out[0][0] == "K":
+        return out[0]
+    return ("FSTR", tuple(out))
 
 
 def _anon_comp(v):
@@ -806,6 +1130,100 @@ def _fmt(v, ind=0):
     return pad + repr(v)
 
 
+# ---------------------------------------------------------------- names of locals are not semantic
+
+def _is_nf(v):
+    return isinstance(v, tuple) and len(v) > 0 and all(
+        isinstance(x, tuple) and len(x) == 4 and isinstance(x[0], tuple) and isinstance(x[1], tuple)
+        and isinstance(x[3], tuple) for x in v)
+
+
+def _rename(v, naming):
+    """v with every local-variable symbol renamed; nested normal forms are re-sorted"""
+    if _is_nf(v):
+        out = []
+        for conds, effects, ex, sets in v:
+            atoms = sorted(((repr(_rename(c[2], naming)), c[1], _rename(c[2], naming))
+                            for c in conds), key=lambda c: (c[0], c[1]))
+            out.append((tuple(atoms), tuple(_rename(e, naming) for e in effects),
+                        _rename(ex, naming),
+                        tuple(sorted((naming.get(nm, nm), _rename(val, naming)) for nm, val in sets))))
+        out.sort(key=repr)
+        return tuple(out)
+    if isinstance(v, tuple):
+        if len(v) == 3 and v[0] in ("LS", "AFTER", "AFTERSTMT") and isinstance(v[2], str):
+            return (v[0], v[1], naming.get(v[2], v[2]))
+        return tuple(_rename(x, naming) for x in v)
+    return v
+
+
+def _local_names(v, out):
+    if _is_nf(v):
+        for conds, effects, ex, sets in v:
+            for c in conds:
+                _local_names(c[2], out)
+            _local_names(effects, out)
+            _local_names(ex, out)
+            for nm, val in sets:
+                out.add(nm)
+                _local_names(val, out)
+    elif isinstance(v, tuple):
+        if len(v) == 3 and v[0] in ("LS", "AFTER", "AFTERSTMT") and isinstance(v[2], str):
+            out.add(v[2])
+        else:
+            for x in v:
+                _local_names(x, out)
+
+
+def _elements(v, out):
+    """the small pieces of a normal form in which names occur: atoms, effects (nested normal forms
+    replaced by their own pieces), exits, new state"""
+    for conds, effects, ex, sets in v:
+        for c in conds:
+            out.append(("cond", c[1], c[2]))
+        for e in effects:
+            if e[0] == "FOREACH":
+                out.append(("foreach", e[2]))
+                _elements(e[3], out)
+            elif e[0] == "TRY":
+                for sub in (e[1], e[3], e[4]) + tuple(h[1] for h in e[2]):
+                    _elements(sub, out)
+            else:
+                out.append(("effect", e))
+        out.append(("exit", ex))
+        for nm, val in sets:
+            out.append(("set", ("LS", 0, nm), val))
+
+
+def alpha_normal(nf, rounds=3):
+    """rename the locals of a normal form canonically: a name is replaced by a colour computed from
+    HOW the variable is used (colour refinement over the pieces it occurs in), so that renaming a
+    local in the source changes nothing, while two variables used differently never share a name"""
+    import hashlib
+    names = set()
+    _local_names(nf, names)
+    if not names:
+        return nf
+    pieces = []
+    _elements(nf, pieces)
+    occurs = {}
+    for el in pieces:
+        inside = set()
+        _local_names(el, inside)
+        for n in inside:
+            occurs.setdefault(n, []).append(el)
+    naming = {n: "v" for n in names}
+    for _ in range(rounds):
+        nxt = {}
+        for n in sorted(names):
+            marked = dict(naming)
+            marked[n] = "SELF"
+            texts = sorted(repr(_rename(el, marked)) for el in occurs.get(n, []))
+            nxt[n] = "v" + hashlib.sha1("\n".join(texts).encode()).hexdigest()[:10]
+        naming = nxt
+    return _rename(nf, naming)
+
+
 def normal_form_text(module, fn, **options):
     """the pinned text for function `fn` of `module` (an ast.Module)"""
-    return _fmt(Exec(module, **options).function(fn))
+    return _fmt(alpha_normal(Exec(module, **options).function(fn)))
